@@ -91,6 +91,7 @@ let result_of_s (s : string) : result option =
   | ["errclosing"] -> Some RErrClosing | ["errkilltimeout"] -> Some RErrKillTimeout
   | ["ok"] -> Some ROk | ["queuefull"] -> Some RQueueFull | ["blocked"] -> Some RBlocked
   | ["msg"; m] -> Some (RMsg (msg_of_s m))
+  | ["lost"] -> Some REmpty   (* Dequeue consumed the queued messages and returned none: as if the queue were empty *)
   | _ -> None
 
 (* ---------------------------------------------------------------- oracles from the implementation's next state *)
@@ -184,7 +185,21 @@ let run path =
            let name = if ack && name = "targets" then "unsub" else name in
            if not ok then begin
              incr propfails;
-             Printf.printf "propfail %s %s op=%s impl=%s\n" label name (S.concat " " args) res end)
+             (* for a Dequeue: what left the session's queues without being handed out *)
+             let lost = match name, op with
+               | "delivery", ODequeue (c, _) ->
+                 (match session_of prev c with
+                  | Some (k, s) ->
+                    let after = (match get_session nx k with Some s' -> s'.s_tq @ s'.s_sq | None -> []) in
+                    let gone = L.fold_left (fun rest m -> remove_one m rest) (s.s_tq @ s.s_sq) after in
+                    let gone = (match ires with
+                        | RMsg m' -> (match L.partition (fun m -> m.m_topic = m'.m_topic && m.m_payload = m'.m_payload) gone with
+                            | (_ :: dup, others) -> dup @ others | ([], others) -> others)
+                        | _ -> gone) in
+                    if gone = [] then "" else " lost=" ^ s_of_msgs gone
+                  | None -> "")
+               | _ -> "" in
+             Printf.printf "propfail %s %s op=%s impl=%s%s\n" label name (S.concat " " args) res lost end)
          (Drv_backend_clauses.eval ~kill_timeout:!kt_seen prev op ires nx)
      | _ -> ());
     (* continue from the implementation's state (the model's where no snapshot was possible) *)
